@@ -77,8 +77,18 @@ func c15one(w *bufio.Writer, sz uint64, fill bool) {
 		rle(func(i uint64) bool { return bm[i/8]&(1<<(i%8)) != 0 }, nbb*32768),
 		rle(func(i uint64) bool { return ibm[i/8]&(1<<(i%8)) != 0 }, 32768))
 	if fill {
+		rootBlocks := func() uint64 {
+			op := fstxn.Begin(st)
+			defer op.Abort()
+			if ip := op.GetInodeInum(1); ip != nil {
+				return (ip.Size + 4095) / 4096
+			}
+			return 0
+		}
+		rb0 := rootBlocks()
 		used, freed, ok := fillDisk(srv)
-		fmt.Fprintf(w, " | %d %d %d %d", used, freed, b2i(ok), st.Balloc.NumFree())
+		// (a directory keeps the blocks it grew into: the root's growth is not a leak)
+		fmt.Fprintf(w, " | %d %d %d %d %d", used, freed, b2i(ok), st.Balloc.NumFree(), rootBlocks()-rb0)
 	}
 	fmt.Fprintln(w)
 	srv.ShutdownNfs()
